@@ -1,0 +1,41 @@
+//go:build verif
+// +build verif
+
+package p2p
+
+// More hooks for the C15 verification harness in /verif (build tag "verif" only): the server's main
+// loop without a listener. They add no behaviour of their own.
+
+// VerifServerLoop attaches the server (see VerifConnServer) to the event bus again and runs its main
+// loop — the add-peer and delete-peer events — on the calling goroutine until VerifServerQuit.
+func VerifServerLoop(srv *Server) {
+	srv.sub()
+	srv.run()
+}
+
+// VerifServerQuit ends the main loop. Stop detaches the server from the event bus first, which takes
+// the bus's write lock — and that lock can wait for ever for a closing peer that still tries to
+// deliver its delete-peer event to this loop, while the loop itself waits behind the pending writer.
+// So the loop ends first, its channels are read for ever afterwards (late events of closing peers
+// find a reader), and VerifServerUnsub detaches the server once the loop has gone.
+func VerifServerQuit(srv *Server) {
+	close(srv.quitCh)
+	go func() {
+		for {
+			select {
+			case <-srv.delPeerCh:
+			case <-srv.addPeerCh:
+			}
+		}
+	}()
+}
+
+// VerifServerUnsub detaches the server from the event bus.
+func VerifServerUnsub(srv *Server) { srv.unSub() }
+
+// VerifConnectedCount is the size of the server's connection table.
+func VerifConnectedCount(srv *Server) int {
+	srv.peersMux.Lock()
+	defer srv.peersMux.Unlock()
+	return len(srv.connectedNodes)
+}
